@@ -234,7 +234,7 @@ class C16(Prop):
     assumptions = ['registration is observed through state_dict()["layers"] names and torch hook dictionaries on the modules',
                    'GPT-NeoX variant (class-name eligibility) is checked with DeepSpeed/Megatron doubles']
     examples = {'quick': 500, 'thorough': 4000}
-    shards = {'quick': 2, 'thorough': 16}
+    shards = {'quick': 8, 'thorough': 16}
     required_labels = {'quick': ['nontrivial=True', 'why_name=True', 'why_class=True', 'why_freeze=True', 'shared=True', 'variant=gpt', 'variant=kaisa'],
                        'thorough': ['nontrivial=True', 'why_name=True', 'why_class=True', 'why_freeze=True', 'shared=True']}
 
